@@ -3,7 +3,7 @@
 Relation JsonCbor (spec/Relations.tla): the value is in the JSON data model and the schema uses no CBOR-only
 construct.  TLC enumerates the MC_Sem scopes as a source of (schema, value) pairs and re-checks relatedness and
 verdict equality of every recorded pair of runs (Trace_Rel); random schemas use the extended shared feature set
-(generics, sockets, unwrap, &, .and/.within/.default).  Independent of the oracle verdict."""
+(generics, sockets, unwrap, &, .and/.within/.default/.cat/.plus/.regexp).  Independent of the oracle verdict."""
 import json
 import random
 import time
@@ -41,7 +41,7 @@ def run():
     if t == "quick" and len(pairs) > 14000:
         pairs = rnd.sample(pairs, 14000)
     n_schemas = 300 if t == "quick" else 6000
-    rc = semcheck.gen_pairs(rnd, "json", n_schemas, profile="shared")
+    rc = semcheck.gen_pairs(rnd, "json", n_schemas, profile="shared") + semcheck.gen_pairs(rnd, "json", n_schemas // 2, profile="sharedx")
     pairs += [(c["rules"], c["val"]) for c in rc]
     ops_j, res_j, ops_c, res_c = run_pairs(pairs)
     events, metas, samples = [], [], []
@@ -63,7 +63,7 @@ def run():
     return relcheck.finish_rel(PID, out, findings, events, metas, wd, known_dev, dev_to_id, t0, states, transitions,
                                "pairs of runs (validate_json_from_str, validate_cbor_from_slice) on the same schema and the same JSON-model value; "
                                "sources: every (schema,value) state of MC_Sem scopes A-D enumerated by TLC, plus random schemas of the shared feature set "
-                               "(generics, sockets, unwrap, &, .and/.within/.default) with instances, mutants and unrelated values. Trace_Rel re-derives "
+                               "(generics, sockets, unwrap, &, .and/.within/.default/.cat/.plus, and - without an oracle clause - .regexp, float .plus, nested .cat) with instances, mutants and unrelated values. Trace_Rel re-derives "
                                "relatedness (JsonModel, SharedSchema) and requires equal verdicts. Non-trivial/distinct = distinct pairs with equal verdicts.",
                                samples, {"tlc_scope_pairs": len(pairs) - len(rc), "random_pairs": len(rc), "exhaustive": True},
                                ["relation is independent of the oracle; the oracle is only used to attribute a mismatch to a listed deviation",
